@@ -6,6 +6,7 @@
 pub mod nd;
 #[macro_use]
 pub mod util;
+pub mod spec;
 pub mod c09;
 
 #[cfg(not(kani))]
